@@ -171,3 +171,6 @@ Definition callback_check_code : list dstmt :=
 (* transport/telnet.go Telnet.handleControlCharResponse *)
 Definition telnet_handle_code : list dstmt :=
   [DIf (DEq "len(ctrlBuf)" "0") [DIf (DNot (DEq "c" "iac")) [DAssign "t.initialBuf" "append(t.initialBuf, c)"] [DAssign "ctrlBuf" "append(ctrlBuf, c)"]] [DIf (DAnd (DEq "len(ctrlBuf)" "1") (DAtom "util.ByteIsAny(c, []byte{do, dont, will, wont})")) [DAssign "ctrlBuf" "append(ctrlBuf, c)"] [DIf (DEq "len(ctrlBuf)" "1") [DIf (DEq "c" "iac") [DAssign "t.initialBuf" "append(t.initialBuf, c)"] []; DAssign "ctrlBuf" "make([]byte, 0)"] [DIf (DEq "len(ctrlBuf)" "2") [DAssign "cmd" "ctrlBuf[1:2][0]"; DAssign "ctrlBuf" "make([]byte, 0)"; DIf (DAnd (DEq "cmd" "do") (DEq "c" "sga")) [DCall "t.c.Write([]byte{iac, will, c})"] [DIf (DAtom "util.ByteIsAny(cmd, []byte{do, dont})") [DCall "t.c.Write([]byte{iac, wont, c})"] [DIf (DEq "cmd" "will") [DCall "t.c.Write([]byte{iac, do, c})"] [DIf (DEq "cmd" "wont") [DCall "t.c.Write([]byte{iac, dont, c})"] []]]]; DIf (DNot (DEq "writeErr" "nil")) [DReturn "nil, writeErr"] []] []]]]; DReturn "ctrlBuf, nil"].
+(* transport/standard.go Standard.openBase *)
+Definition standard_open_base_code : list dstmt :=
+  [DAssign "keyCallback" "ssh.InsecureIgnoreHostKey()"; DIf (DAtom "t.SSHArgs.StrictKey") [DIf (DEq "t.SSHArgs.KnownHostsFile" """""") [DReturn "error"] []; DCall "knownhosts.New(t.SSHArgs.KnownHostsFile)"; DIf (DNot (DEq "err" "nil")) [DReturn "err"] []; DAssign "keyCallback" "knownHosts"] []; DAssign "authMethods" "make([]ssh.AuthMethod, 0)"; DIf (DNot (DEq "t.SSHArgs.PrivateKeyPath" """""")) [DCall "os.ReadFile(t.SSHArgs.PrivateKeyPath)"; DIf (DNot (DEq "err" "nil")) [DReturn "err"] []; DCall "ssh.ParsePrivateKey(k)"; DIf (DNot (DEq "err" "nil")) [DReturn "err"] []; DAssign "authMethods" "append(authMethods, ssh.PublicKeys(signer))"] []; DIf (DNot (DEq "a.Password" """""")) [DAssign "authMethods" "append(authMethods, ssh.Password(a.Password), ssh.KeyboardInteractive( func(_, _ string, questions []string, _ []bool) ([]string, error) { answers := make([]string, len(questions)) for i := range answers { answers[i] = a.Password } return answers, nil }, ))"] []; DAssign "cfg" "&ssh.ClientConfig{ User: a.User, Auth: authMethods, Timeout: a.TimeoutSocket, HostKeyCallback: keyCallback, }"; DIf (DAtom "len(t.ExtraCiphers) > 0") [DAssign "cfg.Config.Ciphers" "append(cfg.Config.Ciphers, t.ExtraCiphers...)"] []; DIf (DAtom "len(t.ExtraKexs) > 0") [DAssign "cfg.Config.KeyExchanges" "append(cfg.Config.KeyExchanges, t.ExtraKexs...)"] []; DReturn "t.openSession(a, cfg)"].
